@@ -92,6 +92,44 @@ CONTRACTS += [
 ]
 
 
+def _two_currencies_setup(I, loc):
+    """as above, but the second component is an amount in an unrelated currency (Euro is no fraction unit of the Dollar)"""
+    from pyvc import envmodel as E, sorts
+    calls = {'n': 0}
+    r1 = _UPR('str(N)', '"Dollar"', '"N Dollar"', 'e0.start', 'e0.length')
+    r2 = _UPR('str(M)', '"Euro"', '"M Euro"', 'e1.start', 'e1.length')
+
+    def parse(I2, a, kw):
+        calls['n'] += 1
+        return sorts.build(I2, r1 if calls['n'] == 1 else r2, f'upr{calls["n"]}')
+    loc['self'].fields['number_with_unit_parser'] = E.EnvConfig('nwu_parser', funcs={'parse': E.EnvFunc('parse', parse)})
+
+
+CONTRACTS += [
+    Contract('c05.currency.merge_compound_unit.unrelated_currencies', UP + 'BaseCurrencyParser.__merge_compound_unit', ['C05', 'C12'],
+             setup=_two_currencies_setup, unroll=8,
+             params=dict(N=Int(1, 100000), M=Int(1, 100000),
+                         e0=_ER(type=Const('builtin.unit.currency')), e1=_ER(type=Const('builtin.unit.currency')),
+                         self=Rec(UP + 'BaseCurrencyParser',
+                                  dict(config=Config(values=dict(
+                                      currency_name_to_iso_code_map=Const({'Dollar': 'USD', 'Euro': 'EUR'}),
+                                      currency_fraction_mapping=Const({'USD': 'CENT|DIME', 'EUR': 'CENT'}),
+                                      currency_fraction_code_list=Const({'Cent': 'CENT'}),
+                                      currency_fraction_num_map=Const({'Cent': 100}),
+                                      culture_info=Config(funcs=dict(format=(['real'], 'str', None, None))))))),
+                         compound_result=_ER(text=Str(), data=Expr('[e0, e1]'))),
+             requires=['e0.start + e0.length <= e1.start'],
+             ensures=[('two-entities-each-with-the-span-of-its-own-amount',
+                       'len(result.value) == 2 and result.value[0].start == e0.start and result.value[0].length == e0.length and '
+                       'result.value[1].start == e1.start and result.value[1].length == e1.length'),
+                      ('each-in-its-own-currency',
+                       'result.value[0].value.iso_currency == "USD" and result.value[1].value.iso_currency == "EUR" and '
+                       'result.value[0].value.number == self.config.culture_info.format(N) and '
+                       'result.value[1].value.number == self.config.culture_info.format(M)')],
+             note='two amounts of unrelated currencies in one candidate group: they stay two entities that do not share a character'),
+]
+
+
 def unit_table_facts(tier, seed):
     """Closed, exhaustive: every spelling of every wired unit table resolves to its canonical unit (see closed/unit_tables.py).
     quick tier: the English tables; thorough tier: all eight cultures (about 11 500 entries)."""
@@ -185,3 +223,29 @@ def _select(n, with_number=False):
 
 
 CONTRACTS += [_select(2), _select(3), _select(2, True)]
+
+
+def unit_config_wiring(tier, seed):
+    """Closed (syntactic, exhaustive over the culture packages; closed/unit_config_wiring.py): every culture's unit parser
+    configuration hands its own culture_info to the internal number parser configuration."""
+    import json
+    import os
+    import subprocess
+    VERIF = os.path.dirname(os.path.dirname(os.path.abspath(__file__)))
+    p = subprocess.run(['/venv/bin/python', os.path.join(VERIF, 'closed', 'unit_config_wiring.py')], capture_output=True, text=True, timeout=300)
+    try:
+        r = json.loads(p.stdout)
+    except Exception:
+        return [dict(name='wiring/number-parser-gets-the-culture', kind='closed', verdict='unknown', detail=(p.stdout + p.stderr)[-500:])]
+    if r['checked'] == 0:
+        return [dict(name='wiring/number-parser-gets-the-culture', kind='closed', verdict='unknown', detail='no configuration class found')]
+    if r['bad']:
+        return [dict(name='wiring/number-parser-gets-the-culture', kind='closed', verdict='sat', backend='closed-eval', replayed=True,
+                     witness=r['bad'][0], detail=f'{r["bad"][:4]}')]
+    return [dict(name='wiring/number-parser-gets-the-culture', kind='closed', verdict='unsat', backend='closed-eval', count=r['checked'],
+                 detail=f'{r["checked"]} culture packages: the internal number parser configuration is built with the culture_info of the '
+                        'unit parser configuration (so the number inside a unit entity is formatted as that culture formats numbers)')]
+
+
+unit_config_wiring.props = ['C05']
+CLOSED.append(unit_config_wiring)
